@@ -55,8 +55,8 @@ def policer_integration(rep):
     # is read before the first call and after the last one returned, so scheduling noise can only lengthen the measured
     # span - a session that ignores limit_rps finishes these calls in a few milliseconds.
     import time as _time
-    R, NREQ = 25, 6
-    for driver in ("sync", "async"):
+    for driver, R, NREQ, TMO in (("sync", 25, 6, 5.0), ("async", 25, 6, 5.0), ("sync", 8, 4, 0.06), ("async", 8, 4, 0.06)):
+        # (last two: the interval 1/R is longer than the session timeout - waiting for the slot is not waiting for a reply)
         cfg = ag.Cfg("v2c")
 
         def handler2(d):
@@ -64,14 +64,14 @@ def policer_integration(rep):
             return [ag.build_reply(cfg, req, [rb.varbind(rb.enc_oid(v[0]), rb.enc_int(1)) for v in req["varbinds"]])]
 
         t0 = _time.monotonic()
-        outs = drivers.run_calls(G, driver, cfg, [("get", "1.3.6.1.2.1.1.1.0")] * NREQ, handler2, timeout=5.0, session_kw={"limit_rps": R})
+        outs = drivers.run_calls(G, driver, cfg, [("get", "1.3.6.1.2.1.1.1.0")] * NREQ, handler2, timeout=TMO, session_kw={"limit_rps": R})
         dt = _time.monotonic() - t0
         if any(o.kind != "ok" for o in outs):
             raise core.Failure("rate-limited-session-failed", "%s session with limit_rps=%d: %r" % (driver, R, outs))
         if dt <= (NREQ - 2) / R:
             raise core.Failure("limit-rps-not-applied:" + driver, "%s session with limit_rps=%d sent %d requests within %.4f s; they must span more than %.3f s"
                                % (driver, R, NREQ, dt, (NREQ - 2) / R))
-        rep.case(("limit-rps-session", driver), True, sample={"driver": driver, "limit_rps": R, "requests": NREQ, "span_s": round(dt, 3)},
+        rep.case(("limit-rps-session", driver, R), True, sample={"driver": driver, "limit_rps": R, "requests": NREQ, "span_s": round(dt, 3)},
                  classes=["session_limit_rps:" + driver])
     # constructor plumbing: limit_rps builds an RPS policer, invalid rates are refused
     for bad in (0, -1):
